@@ -9,12 +9,13 @@ import numlib as nl
 
 ID = "C15"
 MODULES = ["Series", "SO2", "SE2", "Rn", "SO3", "Ctrl", "Ref", "RefP"]
-LEAN_TARGETS = ["Props.C15", "Props.C15A"]
+LEAN_TARGETS = ["Props.C15", "Props.C15A", "Props.C15B"]
 ANCHORS = ["cyecca/models/rdd2.py", "cyecca/models/rdd2_loglinear.py"]
 MISSING = [
     "auto-level stick map bounds as theorems — numeric search only",
     "log-linear SO(3) law: omega = J_l(e) diag(kp) e with e the library's quaternion log of q^-1 (x) q_r IS a theorem for every input (Props/C15A); "
-    "that it reaches the reference (J_l(e) e = e for a scalar gain) — numeric search, including exact and near half-turn errors",
+    "with a scalar gain it commands k times the rotation vector (J_l(e) e = e) and, for k = 1, reaches the reference on the closed-form cells "
+    "(Props/C15B); unequal gains, Taylor cells and the error angle pi — numeric search, including exact and near half-turn errors",
     "attitude law 'reaches the reference': theorem for rdd2.attitude_control on the closed-form cells with unit gains; Taylor cells, the error angle pi, and the "
     "so3 / SE_2(3) log-linear attitude laws — numeric search",
 ]
